@@ -63,6 +63,10 @@ impl<'a> From<AnyValue<'a>> for DateTime<Microsecond> {
     fn from(value: AnyValue<'a>) -> Self {
         match value.dtype() {
             DataType::Datetime(TimeUnit::Microseconds, None) => value.extract::<i64>().into(),
+            // polars' cast divides toward zero, which moves instants before 1970 forward
+            DataType::Datetime(TimeUnit::Nanoseconds, None) => {
+                DateTime::<Nanosecond>::from(value.extract::<i64>()).into_unit()
+            },
             _ => value
                 .cast(&DataType::Datetime(TimeUnit::Microseconds, None))
                 .extract::<i64>()
@@ -76,6 +80,13 @@ impl<'a> From<AnyValue<'a>> for DateTime<Millisecond> {
     fn from(value: AnyValue<'a>) -> Self {
         match value.dtype() {
             DataType::Datetime(TimeUnit::Milliseconds, None) => value.extract::<i64>().into(),
+            // polars' cast divides toward zero, which moves instants before 1970 forward
+            DataType::Datetime(TimeUnit::Microseconds, None) => {
+                DateTime::<Microsecond>::from(value.extract::<i64>()).into_unit()
+            },
+            DataType::Datetime(TimeUnit::Nanoseconds, None) => {
+                DateTime::<Nanosecond>::from(value.extract::<i64>()).into_unit()
+            },
             _ => value
                 .cast(&DataType::Datetime(TimeUnit::Milliseconds, None))
                 .extract::<i64>()
